@@ -532,7 +532,7 @@ def _initialize_components(n_components, input, y=None, init='auto',
   if isinstance(init, np.ndarray):
     # we copy the array, so that if we update the metric, we don't want to
     # update the init
-    init = check_array(init, copy=True)
+    init = check_array(init, copy=True, dtype=float)
 
     # Assert that init.shape[1] = X.shape[1]
     if init.shape[1] != n_features:
